@@ -102,6 +102,20 @@ def check_text(t, res, fam, full=True):
             res.violation('C05|codearea|write-raise|%s|%s' % (type(e).__name__, 'raw' if len(stream) >= len(t) else 'cmp'),
                           'get_bytes_from_code(%r) raised %r' % (t[:40], e), case)
             return
+        # the same text handed over in a mutable buffer (a writer that collects its chunks in a bytearray): same area,
+        # and the caller's buffer is left as it was
+        try:
+            buf = bytearray(t)
+            ba2 = p8png.get_bytes_from_code(buf)
+            res.evaluations += 1
+            if bytes(ba2) != bytes(ba) or bytes(buf) != t:
+                res.violation('C05|codearea|mutable-input|%s' % ('buffer-changed' if bytes(buf) != t else 'area-differs'),
+                              'get_bytes_from_code(bytearray(%r)): %s' % (t[:40], 'the caller\'s buffer now holds %d bytes (was %d)' % (len(buf), len(t))
+                                                                      if bytes(buf) != t else 'gives another code area than for the same text as bytes'), case)
+                return
+        except Exception as e:
+            res.violation('C05|codearea|mutable-input|raise|%s' % type(e).__name__, 'get_bytes_from_code(bytearray(%r)) raised %r' % (t[:40], e), case)
+            return
         try:
             ref_text, mode = rc.code_area_decode(bytes(ba))
         except Exception as e:
